@@ -38,7 +38,16 @@ Faults == <<
   [t |-> Mark("BEGIN { print ", Chars("'a' ~ '('"), " }"), class |-> "runtime", exact |-> FALSE],
   [t |-> Chars("BEGIN { print 'h") \o E9 \o Chars("', ") \o Mark("", Chars("1 % 0"), " }"), class |-> "runtime", exact |-> FALSE],
   [t |-> Mark("BEGIN { print ", Chars("'a\\q'"), " }"),    class |-> "runtime", exact |-> FALSE],
-  [t |-> Mark("BEGIN { ", Chars("printf('%d', 1)"), " }"), class |-> "runtime", exact |-> FALSE]
+  [t |-> Mark("BEGIN { ", Chars("printf('%d', 1)"), " }"), class |-> "runtime", exact |-> FALSE],
+  [t |-> Mark("BEGIN { y = 5; ", Chars("y /= 0"), " }"),   class |-> "runtime", exact |-> FALSE],
+  [t |-> Mark("BEGIN { y = 5; ", Chars("y += 1 / 0"), " }"), class |-> "runtime", exact |-> FALSE],
+  [t |-> Mark("BEGIN { q = [1]; print ", Chars("q[0 - 3]"), " }"), class |-> "runtime", exact |-> FALSE],
+  [t |-> Mark("BEGIN { o = {}; ", Chars("o.a.b(1)"), " }"), class |-> "runtime", exact |-> FALSE],
+  [t |-> Mark("BEGIN { print 1, ", Chars("num()"), " }"),  class |-> "runtime", exact |-> FALSE],
+  [t |-> Mark("function g(v) { return ", Chars("v % 0"), " } BEGIN { g(1) }"), class |-> "runtime", exact |-> FALSE],
+  [t |-> Mark("BEGIN { print match (1) { 1 => ", Chars("2 / 0"), " } }"), class |-> "runtime", exact |-> FALSE],
+  [t |-> Mark("BEGIN { if (", Chars("[1] == 2"), ") print 1 }"), class |-> "runtime", exact |-> FALSE],
+  [t |-> Mark("BEGIN { x = [1, 2", Chars("}"), " }"),      class |-> "syntax",  exact |-> TRUE]
 >>
 
 VARIABLES pre, fi, post, lastNL, done
